@@ -2030,4 +2030,179 @@ theorem insert_sinv {ir ir' : IR} {b off repl last : Nat} {p : Patch}
                           exact hbe hy
       · cases h
 
+/-! ### the loops -/
+
+theorem adoptPatchBlocks_syms (ir : IR) (p : Patch) (f : Nat) : (ir.adoptPatchBlocks p f).syms = ir.syms := by
+  unfold IR.adoptPatchBlocks
+  apply foldl_syms
+  intro i b
+  split
+  · split <;> rfl
+  · rfl
+
+theorem adoptPatchBlocks_order (ir : IR) (p : Patch) (f : Nat) : (ir.adoptPatchBlocks p f).order = ir.order := by
+  unfold IR.adoptPatchBlocks
+  apply foldl_order
+  intro i b
+  split
+  · split <;> rfl
+  · rfl
+
+theorem loopInsert_sinv {ir ir' : IR} {func : Option Nat} {ab : Block} {a ao repl last : Nat} {p : Patch}
+    (h : ir.loopInsert func ab a ao repl p = .ok (ir', last)) (hs : SymsOk ir []) (ho : OrdOk ir) (hI : IdsBelow ir)
+    (hp : PatchOk ir p) : SymsOk ir' [] ∧ OrdOk ir' := by
+  unfold IR.loopInsert at h
+  split at h
+  · cases h
+  · rename_i ir1 l1 hins
+    obtain ⟨s1, o1⟩ := insert_sinv hins hs ho hI hp
+    split at h
+    · split at h
+      · injection h with h; injection h with h1 h2; subst h1
+        obtain ⟨hb, hi, _⟩ := adoptPatchBlocks_touches ir1 p _
+        exact ⟨s1.mono (adoptPatchBlocks_syms _ _ _) (SecLe.of_same hb hi),
+          o1.mono (adoptPatchBlocks_order _ _ _) (SecLe.of_same hb hi)⟩
+      · injection h with h; injection h with h1 h2; subst h1; exact ⟨s1, o1⟩
+    · injection h with h; injection h with h1 h2; subst h1; exact ⟨s1, o1⟩
+
+/-- **the objects of every patch are new when the patch is inserted** (see `PatchOk`), along the
+loop over the requests of a block -/
+def NewPatches (origOff : Nat) (func : Option Nat) : IR → Option Nat → Int → List Mod → Prop
+  | _, _, _, [] => True
+  | _, none, _, _ :: _ => True
+  | ir, some a, total, m :: ms =>
+    match ir.block? a with
+    | none => True
+    | some ab =>
+      match m with
+      | .ins o repl p =>
+        PatchOk ir p ∧
+        ∀ ir' last, ir.loopInsert func ab a (actualOffset origOff ab total o).toNat repl p = .ok (ir', last) →
+          NewPatches origOff func ir' (some last) (total + (p.text.data.length : Int) - (repl : Int)) ms
+      | .del o len px =>
+        ∀ ir' r, ir.delete a (actualOffset origOff ab total o).toNat len px = .ok (ir', r) →
+          NewPatches origOff func ir' r (total - (len : Int)) ms
+
+theorem NewPatches.newBlocks (origOff : Nat) (func : Option Nat) : ∀ (ms : List Mod) (ir : IR) (actual : Option Nat) (total : Int),
+    NewPatches origOff func ir actual total ms → NewBlocks origOff func ir actual total ms := by
+  intro ms
+  induction ms with
+  | nil => intro ir actual total _; unfold NewBlocks; trivial
+  | cons m ms ih =>
+    intro ir actual total h
+    cases actual with
+    | none => unfold NewBlocks; trivial
+    | some a =>
+      unfold NewPatches at h
+      unfold NewBlocks
+      cases hab : ir.block? a with
+      | none => simp only []
+      | some ab =>
+        rw [hab] at h
+        simp only [] at h ⊢
+        cases m with
+        | ins o repl p =>
+          simp only [] at h ⊢
+          obtain ⟨hp, hnext⟩ := h
+          refine ⟨fun c hc => hp.fresh c (List.mem_append_left _ hc), (List.nodup_append.mp hp.nodup).1, ?_⟩
+          intro ir' last hl
+          exact ih ir' (some last) _ (hnext ir' last hl)
+        | del o len px =>
+          simp only [] at h ⊢
+          intro ir' r hd
+          exact ih ir' r _ (h ir' r hd)
+
+/-- **no symbol is left on a block that left the module, through the whole loop over the requests
+of a block** -/
+theorem applyMods_sinv (origOff i : Nat) (func : Option Nat) : ∀ (ms : List Mod) (ir ir' : IR) (actual : Option Nat)
+    (total : Int),
+    IR.applyMods origOff func ir actual total ms = .ok ir' →
+    (∀ a, actual = some a → In i ir a) → IdsBelow ir → NewPatches origOff func ir actual total ms →
+    SymsOk ir [] → OrdOk ir → SymsOk ir' [] ∧ OrdOk ir' := by
+  intro ms
+  induction ms with
+  | nil =>
+    intro ir ir' actual total h _ _ _ hs ho
+    unfold IR.applyMods at h
+    injection h with h; subst h
+    exact ⟨hs, ho⟩
+  | cons m ms ih =>
+    intro ir ir' actual total h hact hI hnew hs ho
+    cases actual with
+    | none => unfold IR.applyMods at h; cases h
+    | some a =>
+      obtain ⟨ab, hab, habi⟩ := hact a rfl
+      have hin : In i ir a := ⟨ab, hab, habi⟩
+      unfold IR.applyMods at h
+      rw [hab] at h
+      simp only [] at h
+      unfold NewPatches at hnew
+      rw [hab] at hnew
+      simp only [] at hnew
+      split at h
+      · cases h
+      · cases m with
+        | ins o repl p =>
+          simp only [Mod.off] at h
+          split at h
+          · cases h
+          · rename_i ir1 last hloop
+            obtain ⟨hp, hnext⟩ := hnew
+            obtain ⟨ir0, hins, hlb, hli, hln⟩ := loopInsert_ok hloop
+            have hst : ∀ c ∈ p.text.blocks.map (·.id), Stays i ir c :=
+              fun c hc blk hblk => by rw [(hp.fresh c (List.mem_append_left _ hc)).1] at hblk; cases hblk
+            obtain ⟨hI0, hin0⟩ := insert_facts hins hin hI hst
+            have hI1 : IdsBelow ir1 := hI0.mono (ids_of_blocks hlb) (by rw [hln]; exact Nat.le_refl _)
+            have hin1 : In i ir1 last := (Keeps.of_blocks hlb).in hin0
+            obtain ⟨s1, o1⟩ := loopInsert_sinv hloop hs ho hI hp
+            exact ih ir1 ir' (some last) _ h (fun a' ha' => by injection ha' with ha'; subst ha'; exact hin1)
+              hI1 (hnext ir1 last hloop) s1 o1
+        | del o len px =>
+          simp only [Mod.off] at h
+          split at h
+          · cases h
+          · rename_i ir1 r hdel
+            obtain ⟨hI1, hin1⟩ := delete_facts hdel hin hI
+            obtain ⟨s1, o1⟩ := delete_sinv hdel hs ho hI
+            exact ih ir1 ir' r _ h hin1 hI1 (hnew ir1 r hdel) s1 o1
+
+/-- the patches of all request lists consist of new objects when they are inserted -/
+def NewPatchesAll : IR → List BlockMods → Prop
+  | _, [] => True
+  | ir, r :: rest =>
+    match ir.block? r.block with
+    | none => True
+    | some blk =>
+      NewPatches blk.off r.func ir (some r.block) 0 r.mods ∧
+      ∀ ir', ir.applyMods blk.off r.func (some r.block) 0 r.mods = .ok ir' → NewPatchesAll ir' rest
+
+/-- **no symbol is left on a block that left the module, through `apply()`'s whole loop over the
+blocks** -/
+theorem applyAll_sinv : ∀ (rs : List BlockMods) (ir ir' : IR),
+    ir.applyAll rs = .ok ir' → IdsBelow ir → (∀ r ∈ rs, ReqOk ir r) → (rs.map (ivOf ir)).Nodup → NewPatchesAll ir rs →
+    SymsOk ir [] → OrdOk ir → SymsOk ir' [] ∧ OrdOk ir' := by
+  intro rs
+  induction rs with
+  | nil =>
+    intro ir ir' h _ _ _ _ hs ho
+    unfold IR.applyAll at h
+    injection h with h; subst h; exact ⟨hs, ho⟩
+  | cons r rest ih =>
+    intro ir ir' h hI hok hnd hnew hs ho
+    obtain ⟨blk, i, bytes, hb, hbi, hsz, hby, hfit, hd⟩ := hok r List.mem_cons_self
+    unfold IR.applyAll at h
+    rw [hb] at h
+    simp only [] at h
+    unfold NewPatchesAll at hnew
+    rw [hb] at hnew
+    simp only [] at hnew
+    split at h
+    · cases h
+    · rename_i ir1 hmod
+      obtain ⟨hn1, hn2⟩ := hnew
+      obtain ⟨hI1, hok1, hnd1⟩ := applyAll_step hb hmod hI hok hnd (NewPatches.newBlocks _ _ _ _ _ _ hn1)
+      obtain ⟨s1, o1⟩ := applyMods_sinv blk.off i r.func r.mods ir ir1 (some r.block) 0 hmod
+        (fun a ha => by injection ha with ha; subst ha; exact ⟨blk, hb, Or.inl hbi⟩) hI hn1 hs ho
+      exact ih ir1 ir' h hI1 hok1 hnd1 (hn2 ir1 hmod) s1 o1
+
 end GtirbVerif.IR
